@@ -37,6 +37,10 @@ package cookie
 //@     && arg(SignedValue, 1) == s.Cookie.Name && arg(SignedValue, 2) == value && arg(SignedValue, 3) == now
 //@ at call makeCookie assert[name-and-lifetime] arg(makeCookie, 2) == s.Cookie.Name && arg(makeCookie, 4) == s.Cookie.Expire
 //@     && (bytes(value) != "" ==> arg(makeCookie, 3) == ret0(SignedValue) && ret1(SignedValue) == nil)
+//@ prop C10 C18
+//@ ensures[unsplit-only-if-the-serialised-cookie-fits] ret1 == nil && !called(splitCookie) ==>
+//@     overheadOf(ret(makeCookie), ret(makeCookie).Name) + len(ret(makeCookie).Value) <= 4000 && len(ret0) == 1 && ret0[0] == ret(makeCookie)
+//@ ensures[otherwise-split] called(splitCookie) ==> arg(splitCookie, 0) == ret(makeCookie) && ret0 == ret(splitCookie)
 
 //@ func (*SessionStore).makeCookie
 //@ prop C18 C09
